@@ -27,6 +27,7 @@ from engine import norm as _norm
 from .sem import defs_texts, cond_want, expander, ctext, conds_at, guarded_values, norm_literal_guard, bind, stmt_of
 
 RULES = {
+    "C06.f": "the centres, labels and inertia stored by the L1 fit are elements of one and the same call of the single-run function, selected under the same facts (best run), stored untransformed",
     "C06.e": "refusals for too few samples test n < k strictly (n == k distinct points is enough); no private hook that scikit-learn's KMeans.fit/predict/transform call on self is overridden (the L2 delegation stays scikit-learn's code)",
     "C06.a": "norm='L2' branch of fit/predict/transform is exactly KMeans.<same method>(self, ...) with every shared parameter forwarded; dispatchers agree on the norm set",
     "C06.b": "distance primitives reachable from the L1 entry points use the Manhattan metric (guard/metric agreement)",
@@ -454,6 +455,68 @@ def check_e(ck, repo):
     ck.verdict(not over, "C06.e", ci.methods["fit"], f"private hooks of KMeans overridden: {over}", "KMeans.fit/predict/transform called on self run scikit-learn's own helpers", f"{CLS} overrides {over}, which scikit-learn's KMeans methods call on self: with norm='L2' the 'delegation' runs this package's code, so results differ from KMeans")
 
 
+def check_f(ck, repo):
+    """centres, labels and inertia stored by the L1 fit are the outputs of one and the
+    same run of the single k-means (the best one), untransformed"""
+    import re as _re
+    from .sem import guarded_values, xt
+
+    ci = repo.cls(MOD, "KMeansL1L2")
+    fi = ci.methods.get("_fit_l1")
+    if fi is None:
+        raise AnalysisError("anchor vanished: KMeansL1L2._fit_l1")
+    got = {}
+    for s_ in own_nodes(fi.node):
+        if isinstance(s_, ast.Assign) and len(s_.targets) == 1 and isinstance(s_.targets[0], ast.Attribute) and src_of(s_.targets[0].value) == "self" and s_.targets[0].attr in ("cluster_centers_", "labels_", "inertia_"):
+            alts = set()
+            for c_, v_, _st in guarded_values(repo, fi, s_.value, s_):
+                if isinstance(v_, ast.Constant) and v_.value is None:
+                    continue
+                alts.add((frozenset(c_), xt(v_)))
+            got[s_.targets[0].attr] = (s_, alts)
+    if set(got) != {"cluster_centers_", "labels_", "inertia_"}:
+        ck.unknown("C06.f", fi, "self.cluster_centers_ / labels_ / inertia_", f"stores found for {sorted(got)} only")
+        return
+    runs = {}
+    odd = []
+    for a_, (s_, alts) in got.items():
+        for facts, t in alts:
+            m = _re.match(r"^(?P<run>.+\))\[(?P<k>\d+)\](\.copy\(\))?$", t)
+            if m is None:
+                odd.append((a_, t))
+            else:
+                runs.setdefault(a_, set()).add((facts, m.group("run"), int(m.group("k"))))
+    if odd:
+        # centres re-ordered by a permutation P (C[P]): new cluster j is old cluster P[j], so an old
+        # label l becomes argsort(P)[l]; mapping labels with P itself is right only for involutions
+        cen = [t for a_, t in odd if a_ == "cluster_centers_"]
+        lab = [t for a_, t in odd if a_ == "labels_"]
+        for tc in cen:
+            mc = _re.match(r"^.+\[(?P<p>[^\[\]]+(\[[^\]]*\])?[^\[\]]*)\]$", tc)
+            for tl in lab:
+                base_defs = []
+                try:
+                    y_ = ast.parse(tl, mode="eval").body
+                    while isinstance(y_, ast.Call) and isinstance(y_.func, ast.Attribute) and y_.func.attr in ("astype", "copy"):
+                        y_ = y_.func.value
+                    if isinstance(y_, ast.Subscript) and isinstance(y_.value, ast.Name):
+                        from .sem import defs_texts
+
+                        base_defs = [tx for _s, tx in defs_texts(repo, fi, y_.value.id)]
+                except SyntaxError:
+                    pass
+                if mc and (tl.startswith(mc.group("p") + "[") or mc.group("p") in base_defs):
+                    ck.violated("C06.f", fi, got["labels_"][0], f"the centres are re-ordered by P = {mc.group('p')[:60]} (new centre j = old centre P[j]) and the labels are mapped through P itself ({tl[:60]}): an old label l must become argsort(P)[l]; with three or more clusters P is not its own inverse in general, so training points carry the label of another centre than the nearest one")
+                    return
+        ck.unknown("C06.f", fi, got[odd[0][0]][0], f"self.{odd[0][0]} = {odd[0][1][:90]}: not an output of the single-run function taken as it is (a re-ordering or another transformation of the best run's results is not decided by this rule)")
+        return
+    sig = {a_: {(f_, r_) for f_, r_, _k in v} for a_, v in runs.items()}
+    same = sig["cluster_centers_"] == sig["labels_"] == sig["inertia_"]
+    ks = {a_: sorted({k_ for _f, _r, k_ in v}) for a_, v in runs.items()}
+    distinct = all(len(v) == 1 for v in ks.values()) and len({v[0] for v in ks.values()}) == 3
+    ck.verdict(same and distinct, "C06.f", fi, got["cluster_centers_"][0], f"centres, labels and inertia are elements {ks} of the same run under the same facts", f"self.cluster_centers_, self.labels_ and self.inertia_ are not taken from one and the same run: " + "; ".join(f"{a_}: element {ks[a_]} when {sorted(t for t, p in next(iter(sig[a_]))[0] if 'inertia' in t)[:2] or 'always (the last run)'}" for a_ in sorted(sig)) + ": labels and inertia can describe other centres than the ones stored")
+
+
 def run(ck):
     repo = ck.repo
     for k, v in RULES.items():
@@ -464,6 +527,7 @@ def run(ck):
     check_b(ck, repo)
     check_c(ck, repo)
     check_d(ck, repo)
+    check_f(ck, repo)
     ck.require_count("C06.a", 5, "three dispatchers x (set, refuse, delegation)")
     ck.require_count("C06.b", 2, "pairwise_distances_argmin_min x2, manhattan_distances x2 (+ euclidean under L2 guards)")
     ck.require_count("C06.c", 3, "median axis/selection/store, final E-step centres/X/guard")
@@ -474,6 +538,7 @@ def run(ck):
 _F = "mlinsights/mlmodel/kmeans_l1.py"
 _G = "mlinsights/mlmodel/_kmeans_022.py"
 WITNESSES = [
+    {"name": "centres-of-the-last-run", "file": _F, "rule": "C06.f", "old": "        self.cluster_centers_ = best_centers\n", "new": "        self.cluster_centers_ = centers\n"},
     {"name": "init-refuses-n-equal-k", "file": _F, "rule": "C06.e", "old": "    elif n_samples < k:\n", "new": "    elif n_samples <= k:\n"},
     {"name": "shift-signed-sum", "file": _F, "rule": "C06.c", "old": "center_shift_total = numpy.sum(numpy.abs(centers_old - centers).ravel())", "new": "center_shift_total = numpy.abs(numpy.sum(centers_old - centers))"},
     {"name": "private-transform-hook-overridden", "file": _F, "rule": "C06.e", "old": "    def _transform_l1(self, X):", "new": "    def _transform(self, X):\n        return self._transform_l1(X)\n\n    def _transform_l1(self, X):"},
